@@ -114,7 +114,7 @@ def _run_one(pid, idx, spec, timeout):
     t0 = time.time()
     try:
         p = subprocess.run(
-            [PY, "-m", "vf", "shard", pid, base + ".spec.json", base + ".out.json"],
+            [PY] + list(spec.get("pyflags") or []) + ["-m", "vf", "shard", pid, base + ".spec.json", base + ".out.json"],
             cwd=ROOT,
             env=env,
             timeout=timeout,
